@@ -165,6 +165,25 @@ def predicate(case, links, out):
                         exp += sample_value(case, links, h, a) * case["gains"][h[2]]
             if area != exp:
                 return "peak at %d: area %s but its hits contribute %s inside the peak" % (pt, area / 2, Fraction(exp, 2))
+            # sample by sample (C19_sum_waveform_sample_is_hit_sum): buffer[k] = sum over the hits of gain * the
+            # hit's sample at the absolute index p_t/dt + k; per channel: area_per_channel; the stored waveform =
+            # the buffer summed in chunks of the down-sampling factor
+            buf = [0] * pl
+            per_ch = [0] * case["nch"]
+            for h in case["hits"]:
+                for k in range(h[1]):
+                    a = h[0] // dt + k
+                    if pt // dt <= a < pt // dt + pl:
+                        c = sample_value(case, links, h, a) * case["gains"][h[2]]
+                        buf[a - pt // dt] += c
+                        per_ch[h[2]] += c
+            if tuple(per_ch) != tuple(apc):
+                return "peak at %d: area_per_channel %s but the hits contribute %s per channel" % (
+                    pt, [float(x / 2) for x in apc], [x / 2 for x in per_ch])
+            stored = [sum(buf[k * f:(k + 1) * f]) for k in range(pl // f)] if f > 1 else buf
+            if list(data) != stored:
+                return "peak at %d: stored waveform %s, sum of the hits' samples %s (down-sampling factor %d)" % (
+                    pt, [float(x / 2) for x in data], [x / 2 for x in stored], max(f, 1))
     return None
 
 
